@@ -64,6 +64,17 @@ package tars
 //@   site req2Byte#0 assert [C10] rsp.IVersion == 3
 //@   site NewBuffer#0 assert [C10] rsp.IVersion != 3
 //
+// InvokeTimeout (the answer to a request whose handler ran out of time): the reply carries the id decoded from that
+// request - read after the decode, not before - and the generic failure code 1.
+//@ func (*Protocol).InvokeTimeout
+//@   requires s != nil && len(pkg) >= 4
+//@   noframe
+//@   allocates
+//@   site ReadFrom#0 assert [C10] $0 == addr(reqPackage)
+//@   site ReadFrom#0 ghostafter s.gtoid = reqPackage.IRequestId
+//@   site rsp2Byte#0 assert [C10] $1 == addr(rspPackage) && rspPackage.IRequestId == s.gtoid && rspPackage.IRequestId == reqPackage.IRequestId && rspPackage.IRet == 1
+//@   sites ReadFrom = 1
+//
 //@ func (*Protocol).Invoke
 //@   requires s != nil && s.app != nil && s.app.allFilters != nil && s.dispatcher != nil && ctx != nil
 //@   requires [C05] len(req) >= 4
